@@ -507,6 +507,10 @@ func init() {
 		}
 		return nil, false
 	}
+	// log/slog: formatting-side helper whose result no code under test inspects
+	ext["log/slog.TimeValue"] = func(fr *frame, a []value) (value, bool) {
+		return zero(fr.fn.Signature.Results().At(0).Type()), true
+	}
 	ext["time.Now"] = func(fr *frame, a []value) (value, bool) {
 		abort("time.Now reached: the real clock is not part of any claim (use the harness clock)")
 		return nil, true
